@@ -24,6 +24,7 @@ import (
 	"go/token"
 	"os"
 	"path/filepath"
+	"reflect"
 	"sort"
 	"strconv"
 	"strings"
@@ -886,6 +887,13 @@ func instrument(path, gen, pkgName string, names *[]string) (bool, error) {
 		changed = true
 	}
 
+	if rewriteChanOps(f) {
+		changed = true
+		f.Decls = append([]ast.Decl{&ast.GenDecl{Tok: token.IMPORT, Specs: []ast.Spec{&ast.ImportSpec{
+			Name: ast.NewIdent("verifsync"), Path: &ast.BasicLit{Kind: token.STRING, Value: strconv.Quote(modPath + "/internal/verif/vsync")},
+		}}}}, f.Decls...)
+	}
+
 	if rewriteGoStmts(f) {
 		changed = true
 	}
@@ -940,6 +948,116 @@ func instrument(path, gen, pkgName string, names *[]string) (bool, error) {
 	}
 
 	return true, os.WriteFile(gen, b.Bytes(), 0o644)
+}
+
+// rewriteChanOps redirects channel sends, receives (plain and comma-ok) and close() outside the communication clauses
+// of select statements to the shim functions verifsync.Send / Recv / Recv2 / Close (package vsync), so that the
+// cooperative scheduler sees them. Range-over-channel loops and select statements stay as they are.
+func rewriteChanOps(f *ast.File) bool {
+	changed := false
+	exprT := reflect.TypeOf((*ast.Expr)(nil)).Elem()
+	stmtT := reflect.TypeOf((*ast.Stmt)(nil)).Elem()
+
+	call := func(fn string, args ...ast.Expr) ast.Expr {
+		changed = true
+		return &ast.CallExpr{Fun: &ast.SelectorExpr{X: ast.NewIdent("verifsync"), Sel: ast.NewIdent(fn)}, Args: args}
+	}
+
+	arrow := func(e ast.Expr) *ast.UnaryExpr {
+		for {
+			p, ok := e.(*ast.ParenExpr)
+			if !ok {
+				break
+			}
+
+			e = p.X
+		}
+
+		if u, ok := e.(*ast.UnaryExpr); ok && u.Op == token.ARROW {
+			return u
+		}
+
+		return nil
+	}
+
+	fixStmt := func(s ast.Stmt) ast.Stmt {
+		switch st := s.(type) {
+		case *ast.SendStmt:
+			return &ast.ExprStmt{X: call("Send", st.Chan, st.Value)}
+		case *ast.AssignStmt:
+			if len(st.Lhs) == 2 && len(st.Rhs) == 1 {
+				if u := arrow(st.Rhs[0]); u != nil {
+					st.Rhs[0] = call("Recv2", u.X)
+				}
+			}
+		case *ast.DeclStmt:
+			if gd, ok := st.Decl.(*ast.GenDecl); ok && gd.Tok == token.VAR {
+				for _, sp := range gd.Specs {
+					if vs, ok := sp.(*ast.ValueSpec); ok && len(vs.Names) == 2 && len(vs.Values) == 1 {
+						if u := arrow(vs.Values[0]); u != nil {
+							vs.Values[0] = call("Recv2", u.X)
+						}
+					}
+				}
+			}
+		}
+
+		return s
+	}
+
+	var walk func(v reflect.Value)
+
+	walk = func(v reflect.Value) {
+		switch v.Kind() {
+		case reflect.Interface:
+			if v.IsNil() {
+				return
+			}
+
+			switch {
+			case v.Type() == stmtT && v.CanSet():
+				v.Set(reflect.ValueOf(fixStmt(v.Interface().(ast.Stmt))))
+			case v.Type() == exprT && v.CanSet():
+				if u := arrow(v.Interface().(ast.Expr)); u != nil {
+					v.Set(reflect.ValueOf(call("Recv", u.X)))
+				}
+			}
+
+			walk(v.Elem())
+		case reflect.Ptr:
+			if v.IsNil() {
+				return
+			}
+
+			switch n := v.Interface().(type) {
+			case *ast.CommClause:
+				walk(reflect.ValueOf(n.Body))
+				return
+			case *ast.Object, *ast.Scope:
+				return
+			case *ast.CallExpr:
+				// close(ch) in any position (statement, defer, go)
+				if id, ok := n.Fun.(*ast.Ident); ok && id.Name == "close" && len(n.Args) == 1 {
+					n.Fun = &ast.SelectorExpr{X: ast.NewIdent("verifsync"), Sel: ast.NewIdent("Close")}
+					changed = true
+				}
+			}
+
+			walk(v.Elem())
+		case reflect.Struct:
+			for i := 0; i < v.NumField(); i++ {
+				walk(v.Field(i))
+			}
+		case reflect.Slice:
+			for i := 0; i < v.Len(); i++ {
+				walk(v.Index(i))
+			}
+		}
+	}
+
+	walk(reflect.ValueOf(f.Decls))
+
+	return changed
 }
 
 // rewriteGoStmts turns every `go f(a, b)` into `{ v0 := a; v1 := b; verifrt.Go(func() { f(v0, v1) }) }`: arguments
